@@ -295,7 +295,7 @@ func checkPipe(e *env, prop string) {
 	r.Rule = "the real processing.ProcessFeatures with a fake source, a fake snapping function and N = 1..5 fake targets: streams of 0..200 features (polygons, multipolygons of 1-3 parts, points, lines, empty multipoints), " +
 		"per (feature, part, tile matrix) outcome dropped / one polygon / two or three polygons, relative speeds of source, snapping and each target varied (the slowest target often gets the last feature; a slow final flush), GOMAXPROCS 1..16. " +
 		"Compared with the model: per target the expected feature sequence (op pipe) and a random complete schedule of the state machine (op piperun). Oracles: exact sequence, geometry and attribute values per target, " +
-		"return only after every target finished, no goroutine left, no hang. Stream gpkg-pipe: real SourceGeopackage and 4-6 real TargetGeopackages on SQLite with 3 attribute columns (the shared spare slot of finding F6), thousands of features. Non-trivial = at least 2 targets and a mixed stream with some dropped and some split outcome; distinct by op text + speeds."
+		"return only after every target finished, no goroutine left, no hang. Stream gpkg-pipe: real SourceGeopackage and 4-6 real TargetGeopackages on SQLite with 5 attribute columns incl. DATETIME with milliseconds and DATE (the shared spare slots of finding F6), thousands of features; geometry and attribute values of every row are read back. Non-trivial = at least 2 targets and a mixed stream with some dropped and some split outcome; distinct by op text + speeds."
 	var wgNote sync.Once
 	n := e.n(700, 60000)
 	for it := 0; it < n; it++ {
@@ -454,12 +454,14 @@ func gpkgPipe(e *env, nfeat, ntargets, pagesize int) {
 	}
 	defer os.RemoveAll(dir)
 	t := randTable(e.rng, "polys", gpkg.Polygon, nfeat, 0)
-	// key + two attributes = 3 columns: append() gives the columns slice capacity 4, the spare slot
-	t.cols = []colSpec{{"fid", "INTEGER"}, {"a0", "TEXT"}, {"a1", "REAL"}}
+	// key + four attributes = 5 columns: append() gives the columns slice capacity 8, spare slots (finding F6); a DATETIME with
+	// milliseconds and a DATE among them: attribute values must arrive as they are
+	t.cols = []colSpec{{"fid", "INTEGER"}, {"a0", "TEXT"}, {"a1", "REAL"}, {"a2", "DATETIME"}, {"a3", "DATE"}}
 	t.gpos = 1
 	t.srs = 28992
 	for i := range t.rows {
-		t.rows[i] = []interface{}{int64(i + 1), fmt.Sprintf("n%d", i), float64(i) / 4}
+		t.rows[i] = []interface{}{int64(i + 1), fmt.Sprintf("n%d", i), float64(i) / 4,
+			time.Date(2001+i%20, time.Month(1+i%12), 1+i%28, i%24, i%60, (7*i)%60, (i%1000)*1000000, time.UTC), time.Date(1995+i%30, time.Month(1+i%12), 1+i%28, 0, 0, 0, 0, time.UTC)}
 		t.geoms[i] = geom.Polygon{{{float64(i), 0}, {float64(i) + 1, 0}, {float64(i), 1}}}
 	}
 	src := filepath.Join(dir, "src.gpkg")
@@ -491,14 +493,14 @@ func gpkgPipe(e *env, nfeat, ntargets, pagesize int) {
 		}
 		return res
 	}
-	mark(fmt.Sprintf("gpkg-pipe: real SourceGeopackage (%d polygon features, 3 attribute columns) through ProcessFeatures into %d real TargetGeopackages, page size %d", nfeat, ntargets, pagesize))
+	mark(fmt.Sprintf("gpkg-pipe: real SourceGeopackage (%d polygon features, 5 attribute columns) through ProcessFeatures into %d real TargetGeopackages, page size %d", nfeat, ntargets, pagesize))
 	processing.ProcessFeatures(source, targets, f)
 	for _, tg := range tgs {
 		tg.Close()
 	}
 	unmark()
 	source.Close()
-	op := fmt.Sprintf("gpkg-pipe: %d features, 3 attribute columns (cap 4), %d real GeoPackage targets, page size %d", nfeat, ntargets, pagesize)
+	op := fmt.Sprintf("gpkg-pipe: %d features, 5 attribute columns incl. DATETIME and DATE (cap 8), %d real GeoPackage targets, page size %d", nfeat, ntargets, pagesize)
 	r.count("gpkg-pipe", op, true)
 	for tm := 0; tm < ntargets; tm++ {
 		got, err := readBack(filepath.Join(dir, fmt.Sprintf("dst_%d.gpkg", tm)), "polys", t.gcol)
@@ -513,6 +515,14 @@ func gpkgPipe(e *env, nfeat, ntargets, pagesize int) {
 		wrong := 0
 		first := ""
 		for i, row := range got.rows {
+			var want []string
+			for _, v := range t.rows[i] {
+				want = append(want, printVal(v))
+			}
+			if strings.Join(row.attrs, "|") != strings.Join(want, "|") {
+				r.violation(Violation{Oracle: "original-attribute-values", Op: op, Impl: fmt.Sprintf("target %d row %d: %v", tm, i, row.attrs), Detail: fmt.Sprintf("expected %v", want)})
+				break
+			}
 			pg, ok := row.g.(geom.Polygon)
 			if !ok || len(pg) == 0 || len(pg[0]) == 0 || pg[0][0][1] != float64(1000+tm) || pg[0][0][0] != float64(i) {
 				wrong++
